@@ -4,21 +4,44 @@ import (
 	"bytes"
 	"flag"
 	"fmt"
+	"io"
 	"os"
+	"reflect"
+	"strings"
 	"sync"
 
 	cli "github.com/jawher/mow.cli"
 )
 
 // Rec is a recorder value type: every Set string is observed, in order.
-type Rec struct{ Vals []string }
+type Rec struct {
+	Vals []string
+	N    int // successful Set calls ever made (Clear does not reset it)
+}
 
 // Set records s.
-func (r *Rec) Set(s string) error { r.Vals = append(r.Vals, s); return nil }
+func (r *Rec) Set(s string) error { r.Vals = append(r.Vals, s); r.N++; return nil }
 func (r *Rec) String() string     { return "" }
 
 // Clear makes the recorder multi-valued for the library.
 func (r *Rec) Clear() { r.Vals = nil }
+
+// MapRec is a recorder whose dynamic type is a map used BY VALUE (value receivers): a legitimate flag.Value that is
+// not hashable and not comparable, multi-valued like Rec.
+type MapRec map[string][]string
+
+// Set records the token.
+func (m MapRec) Set(s string) error {
+	m["v"] = append(m["v"], s)
+	m["#"] = append(m["#"], "")
+	return nil
+}
+
+// String renders the content.
+func (m MapRec) String() string { return strings.Join(m["v"], ",") }
+
+// Clear makes the recorder multi-valued for the library.
+func (m MapRec) Clear() { delete(m, "v") }
 
 // BRec is a recorder that can be used as a flag.
 type BRec struct{ Rec }
@@ -40,13 +63,16 @@ type Outcome struct {
 	Accept   bool                `json:"accept"`          // the Action ran
 	Err      string              `json:"err,omitempty"`   // Run's returned error
 	HasErr   bool                `json:"has_err"`         //
-	Bind     map[string][]string `json:"bind,omitempty"`  // values of containers whose SetByUser is true
+	Bind     map[string][]string `json:"bind,omitempty"`  // content of the containers the command line wrote to (Touched)
+	FlagBind map[string][]string `json:"-"`               // content of the containers whose SetByUser flag is true
 	Raw      map[string][]string `json:"-"`               // every recorder's content as read inside the Action
 	Panic    string              `json:"panic,omitempty"` // formatted panic value ("" = none)
 	PanicVal interface{}         `json:"-"`
 	Exit     *int                `json:"exit,omitempty"`
 	Exits    int                 `json:"exits,omitempty"`
-	Stderr   string              `json:"-"`
+	Stderr   string              `json:"-"` // what was written to the error stream
+	Stdout   string              `json:"-"` // what was written to the output stream
+	All      string              `json:"-"` // both, in the order written
 	Log      []string            `json:"log,omitempty"`
 }
 
@@ -59,8 +85,9 @@ func WithSwap(out *Outcome, f func()) { WithSwapExit(out, nil, f) }
 func WithSwapExit(out *Outcome, onExit func(int), f func()) {
 	swapMu.Lock()
 	defer swapMu.Unlock()
-	var buf bytes.Buffer
-	restore := cli.VerifSwap(&buf, &buf, func(c int) {
+	// two streams, observed separately (C07 speaks about the error stream) and in their common order (All)
+	var bufOut, bufErr, bufAll bytes.Buffer
+	restore := cli.VerifSwap(io.MultiWriter(&bufOut, &bufAll), io.MultiWriter(&bufErr, &bufAll), func(c int) {
 		cc := c
 		out.Exit = &cc
 		out.Exits++
@@ -71,7 +98,7 @@ func WithSwapExit(out *Outcome, onExit func(int), f func()) {
 	})
 	defer func() {
 		restore()
-		out.Stderr = buf.String()
+		out.Stderr, out.Stdout, out.All = bufErr.String(), bufOut.String(), bufAll.String()
 	}()
 	func() {
 		defer func() {
@@ -123,6 +150,11 @@ type Holder struct {
 	Rec *Rec
 	Set *bool
 	Get func() []string // when set, the content is read through it (built-in containers)
+	// Count, when set, tells how many successful Set calls the container saw (recorders other than Rec)
+	Count func() int
+	base  int      // Set calls seen when the declaration finished (environment values arrive before that)
+	decl  []string // content when the declaration finished
+	armed bool
 }
 
 // Vals reads the container's current content.
@@ -131,6 +163,39 @@ func (h Holder) Vals() []string {
 		return h.Get()
 	}
 	return h.Rec.Vals
+}
+
+func (h Holder) count() (int, bool) {
+	switch {
+	case h.Count != nil:
+		return h.Count(), true
+	case h.Rec != nil:
+		return h.Rec.N, true
+	}
+	return 0, false
+}
+
+// Arm records the state of the containers at the end of their declaration (and again before a further Run on the same
+// application object): Touched is relative to it.
+func Arm(hs []Holder) {
+	for i := range hs {
+		hs[i].base, _ = hs[i].count()
+		hs[i].decl = append([]string{}, hs[i].Vals()...)
+		hs[i].armed = true
+	}
+}
+
+// Touched: the library wrote command-line values into the container since Arm. For recorders this is observed directly
+// (a Set call), independently of the SetByUser flag (which is C15's business); for the library's own containers it is
+// inferred from a change of content.
+func (h Holder) Touched() bool {
+	if !h.armed {
+		return *h.Set
+	}
+	if n, ok := h.count(); ok {
+		return n > h.base
+	}
+	return !reflect.DeepEqual(append([]string{}, h.Vals()...), h.decl)
 }
 
 // BuiltinDefault is the declared default of every built-in []string container of a case: ONE slice object with spare
@@ -174,6 +239,11 @@ func DeclareContainers(c *cli.Cmd, d *Decls, envPrefix string, builtin bool) []H
 			v := &VRec{}
 			c.Var(cli.VarOpt{Name: o.DeclName(), Value: v, EnvVar: env, SetByUser: set})
 			hs = append(hs, Holder{Key: d.OptKey(i), Rec: &v.Rec, Set: set})
+		} else if i%4 == 2 {
+			// a map type used by value: not hashable
+			m := MapRec{}
+			c.Var(cli.VarOpt{Name: o.DeclName(), Value: m, EnvVar: env, SetByUser: set})
+			hs = append(hs, Holder{Key: d.OptKey(i), Set: set, Get: func() []string { return m["v"] }, Count: func() int { return len(m["#"]) }})
 		} else {
 			v := &Rec{}
 			c.Var(cli.VarOpt{Name: o.DeclName(), Value: v, EnvVar: env, SetByUser: set})
@@ -190,15 +260,33 @@ func DeclareContainers(c *cli.Cmd, d *Decls, envPrefix string, builtin bool) []H
 			hs = append(hs, Holder{Key: d.ArgKey(i), Set: set, Get: func() []string { return *p }})
 			continue
 		}
+		if i%3 == 1 {
+			m := MapRec{}
+			c.Var(cli.VarArg{Name: a.Name, Value: m, SetByUser: set})
+			hs = append(hs, Holder{Key: d.ArgKey(i), Set: set, Get: func() []string { return m["v"] }, Count: func() int { return len(m["#"]) }})
+			continue
+		}
 		v := &Rec{}
 		c.Var(cli.VarArg{Name: a.Name, Value: v, SetByUser: set})
 		hs = append(hs, Holder{Key: d.ArgKey(i), Rec: v, Set: set})
 	}
+	Arm(hs)
 	return hs
 }
 
 // Snapshot reads the bindings of the containers the command line supplied.
 func Snapshot(hs []Holder) map[string][]string {
+	m := map[string][]string{}
+	for _, h := range hs {
+		if h.Touched() {
+			m[h.Key] = append([]string{}, h.Vals()...)
+		}
+	}
+	return m
+}
+
+// SnapshotFlags reads the content of the containers whose SetByUser flag is true.
+func SnapshotFlags(hs []Holder) map[string][]string {
 	m := map[string][]string{}
 	for _, h := range hs {
 		if *h.Set {
@@ -244,6 +332,7 @@ func runRealFull(out *Outcome, d *Decls, spec string, full []string, envPrefix s
 	app.Action = func() {
 		out.Accept = true
 		out.Bind = Snapshot(hs)
+		out.FlagBind = SnapshotFlags(hs)
 		out.Raw = map[string][]string{}
 		for _, h := range hs {
 			out.Raw[h.Key] = append([]string{}, h.Vals()...)
